@@ -61,6 +61,19 @@ class BoomIndexError(Boom, IndexError):
     pass
 
 
+def carries_boom(exc):
+    """the injected fault itself, or an exception chained from it: Python turns a StopIteration that escapes a generator
+    into RuntimeError("generator raised StopIteration") with the original as __cause__ (PEP 479), and a library may
+    wrap a callback error in an exception of its own `from` the original - in both cases the failure did propagate"""
+    seen = 0
+    while exc is not None and seen < 8:
+        if isinstance(exc, Boom):
+            return True
+        exc = exc.__cause__ or exc.__context__
+        seen += 1
+    return False
+
+
 def _boom_classes():
     out = [Boom, BoomKeyError, BoomZeroDivision, BoomAttributeError, BoomTypeError, BoomValueError, BoomIndexError]
     # ... and as the exception types that have a meaning of their own for Python's iteration / generator / import
